@@ -29,6 +29,7 @@ type mReq struct {
 	TID      [12]byte
 	Method   stun.Method
 	Msg      *stun.Message
+	Strict   *stun.Message // Msg without what follows MESSAGE-INTEGRITY, when that differs
 	Raw      []byte
 	TRecv    int64
 	Answered bool
@@ -344,7 +345,13 @@ func (m *Monitor) srvRecv(client string, b []byte, whole bool, now int64) {
 		m.anyMsg[client+"|"+string(msg.TransactionID[:])] = true
 		switch msg.Type.Class {
 		case stun.ClassRequest:
+			// what follows MESSAGE-INTEGRITY is not covered by it and must be ignored (RFC 5389
+			// section 15.4; FINGERPRINT excepted): the model reads the request without it
 			r := &mReq{Client: client, TID: msg.TransactionID, Method: msg.Type.Method, Msg: msg, Raw: b, TRecv: now, Src: m.curSrc, RC: m.readCalls[m.curSrc]}
+			if view := stripAfterMI(msg); len(view.Attributes) != len(msg.Attributes) {
+				r.Strict = view // the request as an agent has to read it (see respCreatePerm)
+				m.K.Stats.Probe("attrs_after_integrity")
+			}
 			r.Auth, r.AuthWhy, r.User = m.authentic(msg, now)
 			h := md5.Sum(b)
 			r.Intent = m.intents[client+"|"+hex.EncodeToString(h[:])]
@@ -555,6 +562,18 @@ func (m *Monitor) respBinding(r *mReq, msg *stun.Message, ok bool, to string) {
 	}
 }
 
+// unclaimedCreation: up to t the library has reported more allocations created for client than
+// the model has made for it.
+func (m *Monitor) unclaimedCreation(client string, t int64) bool {
+	n := 0
+	for _, e := range m.events {
+		if e.Kind == "alloc-created" && e.Key == client && e.T <= t {
+			n++
+		}
+	}
+	return n > len(m.M.Allocs[client])
+}
+
 func (m *Monitor) ownerAllocs(r *mReq, I ivl) (poss []*mAlloc, def *mAlloc) {
 	for _, a := range m.M.Current(r.Client, I.Lo, I.Hi) {
 		poss = append(poss, a)
@@ -659,10 +678,14 @@ func (m *Monitor) respAllocate(r *mReq, msg *stun.Message, ok bool, code int, I 
 	for _, a := range poss {
 		if a.TID == r.TID {
 			// retransmission: must be the same answer and must not create anything
-			if a.RespSig == sig {
+			if a.RespSig == sig && !(m.P.Cfg.Events && !m.M.DefinitelyAlive(a, I.Lo, I.Hi) && m.unclaimedCreation(r.Client, I.Hi)) {
 				m.K.Stats.Probe("allocate_retransmit_answered")
 				return
 			}
+			// (equal attributes do not prove a cached answer: out of a small port range a new
+			// allocation can be given the old port. When the earlier allocation may have ended
+			// while this request was handled and the library has reported more allocations
+			// created for this 5-tuple than the model knows, this is such a new allocation.)
 			if m.M.DefinitelyAlive(a, I.Lo, I.Hi) {
 				m.v([]string{"C19"}, "retry-not-idempotent", kv("what", "attributes"), "retransmitted Allocate got different attributes: %s vs %s", a.RespSig, sig)
 				return
@@ -863,8 +886,37 @@ func (m *Monitor) respCreatePerm(r *mReq, msg *stun.Message, ok bool, code int, 
 			m.v([]string{"C01"}, "family-installed", kv("path", "perm"), "CreatePermission success for %s on an IPv%d allocation", p.IP, a.Family)
 			continue
 		}
+		if r.Strict != nil && !hasXORAddr(r.Strict, attrXORPeerAddress, p.IP) {
+			// named only behind MESSAGE-INTEGRITY: not part of the authentic request. A server
+			// may not act on it; whether this one does shows when that peer's traffic is relayed
+			// (known finding KF-C03-1). Kept apart, so that every other rule accepts either behaviour.
+			if a.TrailPerms == nil {
+				a.TrailPerms = map[string][]*period{}
+			}
+			a.TrailPerms[p.IP.String()] = m.M.install(a, a.TrailPerms[p.IP.String()], I, m.M.PermTimeout)
+			continue
+		}
 		m.M.InstallPerm(a, p.IP.String(), I)
 	}
+}
+
+// trailingOnly: between t1 and t2 a permission for ip can exist only on the strength of an
+// attribute that followed MESSAGE-INTEGRITY.
+func (m *Monitor) trailingOnly(a *mAlloc, ip string, t1, t2 int64) bool {
+	if m.M.PermPossibly(a, ip, t1, t2) || m.pendingInstall(a, ip, -1, "", t2) {
+		return false
+	}
+	for _, p := range a.TrailPerms[ip] {
+		if m.M.periodPossibly(a, p, t1, t2) {
+			return true
+		}
+	}
+	return false
+}
+
+func (m *Monitor) afterIntegrityHonoured(dir, client, peer string) {
+	m.v([]string{"C03"}, "after-integrity-attribute-honoured", kv("method", "createperm", "dir", dir),
+		"traffic between %s and %s was relayed on the strength of an XOR-PEER-ADDRESS that followed MESSAGE-INTEGRITY in the CreatePermission request: that attribute is not covered by the credentials (RFC 5389 section 15.4), anybody on the path can append it", client, peer)
 }
 
 func (m *Monitor) respChannelBind(r *mReq, msg *stun.Message, ok bool, code int, I ivl) {
@@ -984,7 +1036,15 @@ func (m *Monitor) pendingInstall(a *mAlloc, ip string, n int, addr string, t2 in
 }
 
 func (m *Monitor) permPoss(a *mAlloc, ip string, t1, t2 int64) bool {
-	return m.M.PermPossibly(a, ip, t1, t2) || m.pendingInstall(a, ip, -1, "", t2)
+	if m.M.PermPossibly(a, ip, t1, t2) || m.pendingInstall(a, ip, -1, "", t2) {
+		return true
+	}
+	for _, p := range a.TrailPerms[ip] {
+		if m.M.periodPossibly(a, p, t1, t2) {
+			return true
+		}
+	}
+	return false
 }
 
 func (m *Monitor) chanPoss(a *mAlloc, n uint16, addr string, t1, t2 int64) bool {
@@ -1061,6 +1121,9 @@ func (m *Monitor) relayWrite(relayKey, to string, payload []byte, now int64) {
 				if m.permPoss(a, dst.IP.String(), s.TRecv, now) {
 					s.Done = true
 					m.lateEmission(s, now)
+					if m.trailingOnly(a, dst.IP.String(), s.TRecv, now) {
+						m.afterIntegrityHonoured("c2p", a.Client, to)
+					}
 					return
 				}
 				why = "no-perm"
@@ -1205,6 +1268,9 @@ func (m *Monitor) forward(to string, isChan bool, num uint16, peer string, paylo
 			}
 			if m.permPoss(a, src.IP.String(), i.TRecv, now) || m.chanOfAddrPoss(a, i.From, i.TRecv, now) {
 				i.Done = true
+				if m.trailingOnly(a, src.IP.String(), i.TRecv, now) && !m.chanOfAddrPoss(a, i.From, i.TRecv, now) {
+					m.afterIntegrityHonoured("p2c", a.Client, i.From)
+				}
 				if len(m.M.ByRelay[i.From]) > 0 {
 					m.K.Stats.Probe("hairpin_forwarded")
 				}
